@@ -51,7 +51,10 @@ int main( int argc, char ** argv ) {
     }
     for( size_t i = 0; i < ids.size(); i++ ) {
         instanceStreamPos_t::cvector * cv = mgr->_instanceStreamPos.find( ids[i] );
-        const char * t = ( cv && cv->size() == 1 ) ? mgr->typeFromFile( ids[i] ) : 0;
+        // a data section the loader gave up on ("Corrupted data section") is not registered although its instances
+        // stay indexed: typeFromFile() would index an empty vector (outside the properties: C10 speaks of conforming files)
+        bool registered = cv && cv->size() == 1 && ( size_t )( cv->at( 0 ) >> 48 ) < mgr->_dataSections.size();
+        const char * t = registered ? mgr->typeFromFile( ids[i] ) : 0;
         printf( "IDX %lu %s %lu\n", ( unsigned long )ids[i], t ? ( *t ? t : "(complex)" ) : "?", ( unsigned long )( cv ? cv->size() : 0 ) );
     }
     for( int dir = 0; dir < 2; dir++ ) {
